@@ -27,7 +27,8 @@ META = {
 
 BUF_ACCESS = {'deref_mut', 'deref', 'index_mut', 'index', 'as_mut_slice', 'as_slice', 'len', 'capacity', 'is_empty', 'iter', 'as_ptr', 'get', 'first', 'last',
               'as_ref', 'borrow'}
-BUF_ALLOWED_MUT = {'extend': 'growth by one step when full', 'read': 'transport read into buffer[read cursor..]'}
+BUF_ALLOWED_MUT = {'extend': 'growth by one step when full', 'extend_from_slice': 'growth by one step when full (slice form; amount and guard are R17.1 / R17.2)',
+                   'read': 'transport read into buffer[read cursor..]'}
 
 
 def buffer_field(crate):
